@@ -372,8 +372,8 @@ func culprits(c caseT, f failure) []culprit {
 
 type finding struct {
 	Key, Clause, Detail string
-	Case               caseT
-	Size               int
+	Case                caseT
+	Size                int
 }
 
 func caseSize(c caseT) int {
